@@ -37,6 +37,10 @@ def logfloat(lo_exp, hi_exp):
 def r6(x):
     """Round generated geometry to 6 significant digits - keeps replay files readable and
     loses nothing (the special values are constructed, not hit by chance)."""
+    if abs(x) < 1e-30:
+        # Hypothesis likes denormal-sized floats; coordinates whose square underflows are C15's subject (offset ladder),
+        # everywhere else they would only re-discover that r**2 == 0 there
+        return 0.0
     return float(f"{x:.6g}")
 
 
